@@ -54,17 +54,17 @@ def check_names(N: int) -> List[str]:
 _CLASS_CACHE: Dict[tuple, type] = {}
 
 
-def make_scripted(N: int, *, with_z: bool = False, with_x: bool = True, base=None, lags: int = 0, leads: int = 0):
+def make_scripted(N: int, *, with_z: bool = False, with_x: bool = True, base=None, lags: int = 0, leads: int = 0, exo_name: str = 'X'):
     import fsic
 
     base = base or fsic.BaseModel
-    key = (N, with_z, with_x, base, lags, leads)
+    key = (N, with_z, with_x, base, lags, leads, exo_name)
     if key in _CLASS_CACHE:
         return _CLASS_CACHE[key]
 
     class Scripted(base):
         ENDOGENOUS = check_names(N) + (['Z'] if with_z else [])
-        EXOGENOUS = ['X'] if with_x else []
+        EXOGENOUS = [exo_name] if with_x else []   # exo_name: a legal variable name that is also a method / property
         PARAMETERS: List[str] = []
         ERRORS: List[str] = []
         NAMES = ENDOGENOUS + EXOGENOUS
